@@ -6,7 +6,7 @@
 //! var, mul/2, f3/3, f4/4, g/1, lam, letrev, pin, nest, the 5 numeric slot names $0..$4; nodes violating the crate's
 //! per-node rule 'a bound name is not free in the same node' are not generated) and 8 unions between the inserted terms, plus 17 hand-written histories, every history once under the unit analysis and once under a min-size analysis (whose data change, so that analysis-only updates are queued)
 //! (symmetry then redundancy, a class equated with a term that contains it, redundancy under a binder);
-//! `apply_rewrites`: 13 terms × 12 rule sets × 3 rounds and 5 terms × 10 one-rule-per-round sequences (native substitution,
+//! `apply_rewrites`: 15 terms × 15 rule sets × 3 rounds (native substitution also nested in a substitution) and 5 terms × 10 one-rule-per-round sequences (native substitution,
 //! let-introduction, rules under binders, after a redundancy or symmetry was established).  After EVERY operation: the built-in `EGraph::check`, every
 //! e-node listed for a class looks up to that class, no e-node is listed for two live classes, every e-node mentions all
 //! slots of its class, `find_applied_id` is idempotent on the inserted handles.
@@ -182,6 +182,9 @@ fn rules() -> Vec<(&'static str, &'static str, &'static str)> {
         ("let-var-same", "(let $1 (var $1) ?e)", "?e"),
         ("wrap", "(mul ?a ?b)", "(app (lam $5 (mul (var $5) ?b)) ?a)"),
         ("lam-forget", "(lam $1 (mul ?a ?b))", "(lam $1 (mul ?a (var $8)))"),
+        // a substitution inside a substitution (in the body position, in the argument position)
+        ("subst-twice", "(app (app (lam $1 (lam $2 ?b)) ?t) ?u)", "?b[(var $1) := ?t][(var $2) := ?u]"),
+        ("subst-in-arg", "(app (lam $1 ?b) (app (lam $2 ?c) ?u))", "?b[(var $1) := ?c[(var $2) := ?u]]"),
     ]
 }
 
@@ -214,9 +217,10 @@ pub fn run(only: &[String]) -> Vec<String> {
             "(g (f3 (var $1) (var $2) (var $3)))", "(mul (f3 (var $1) (var $2) (var $3)) zero)", "(lam $1 (mul (var $1) (var $2)))",
             "(f4 (var $1) (var $2) (var $3) (var $4))", "(mul (g (var $1)) (f4 (var $1) (var $2) (var $1) (var $2)))", "(lam $1 (f3 (var $1) (var $2) (var $1)))",
             "(app (lam $1 (mul (var $1) (var $2))) (var $3))", "(app (lam $1 (lam $2 (mul (var $1) (mul (var $2) (var $3))))) (g (var $2)))",
-            "(lam $3 (app (lam $1 (mul (var $3) (mul (var $1) (var $2)))) (var $3)))", "(app (lam $1 (mul (var $2) (var $2))) (f3 (var $1) (var $2) (var $3)))"];
+            "(lam $3 (app (lam $1 (mul (var $3) (mul (var $1) (var $2)))) (var $3)))", "(app (lam $1 (mul (var $2) (var $2))) (f3 (var $1) (var $2) (var $3)))",
+            "(app (app (lam $1 (lam $2 (mul (var $1) (var $2)))) (var $3)) (var $4))", "(app (lam $1 (mul (var $1) (var $1))) (app (lam $2 (g (var $2))) (var $3)))"];
         let sets: Vec<Vec<usize>> = vec![vec![0, 1], vec![2, 3], vec![0, 1, 2, 3], vec![4, 5], vec![6, 0], vec![0, 1, 2, 3, 4, 5, 6],
-            vec![1, 7], vec![7, 0], vec![8, 9, 1], vec![10, 7, 1], vec![11, 7], vec![0, 1, 7, 8, 9, 10, 11]];
+            vec![1, 7], vec![7, 0], vec![8, 9, 1], vec![10, 7, 1], vec![11, 7], vec![0, 1, 7, 8, 9, 10, 11], vec![12], vec![13], vec![12, 13, 7, 0]];
         let rs = rules();
         let mut n = 0;
         for t in terms { for set in &sets {
